@@ -290,6 +290,10 @@ func (fs *FS) Rename(oldname, newname string) error {
 		}
 	}
 	newFile, newErr := fs.getFile(newname)
+	if newErr != nil && !errors.Is(newErr, hackpadfs.ErrNotExist) {
+		// unknown whether the destination exists (e.g. the store failed): do not overwrite blindly
+		return &hackpadfs.LinkError{Op: "rename", Old: oldname, New: newname, Err: newErr}
+	}
 	if newErr == nil && newFile.Mode().IsDir() {
 		// a directory is never replaced, not even an empty one (matches os.Rename)
 		return &hackpadfs.LinkError{Op: "rename", Old: oldname, New: newname, Err: hackpadfs.ErrExist}
